@@ -1,6 +1,7 @@
 package main
 
 import (
+	"github.com/nspcc-dev/neo-go/pkg/vm/stackitem"
 	"github.com/mr-tron/base58"
 	"go/types"
 	"go/token"
@@ -219,7 +220,10 @@ func (e *Engine) call(fn *ssa.Function, s *St, in *ssa.Call, ip int) (next []suc
 		}
 		return next, nil, false
 	case ipfx + "storage.Find":
-		alts := e.storageFind(s, e.ns(keyOf(args[1])), int(args[2].(IntV).t.n.Int64()))
+		var alts []findAlt
+		if f := catchFault(func() { alts = e.storageFind(s, e.ns(keyOf(args[1])), int(args[2].(IntV).t.n.Int64())) }); f != "" {
+			return nil, []Out{{s.State, true, constBytes(f)}}, false
+		}
 		if len(alts) > 1 {
 			e.stats.forks++
 		}
@@ -266,7 +270,11 @@ func (e *Engine) call(fn *ssa.Function, s *St, in *ssa.Call, ip int) (next []suc
 	case ipfx + "native/std.Serialize":
 		return set(SerV{e.freeze(s.State, args[0])})
 	case ipfx + "native/std.Deserialize":
-		return set(e.thaw(s.State, args[0].(SerV).v))
+		dv, fault := e.deserialize(s.State, args[0])
+		if fault != "" {
+			return nil, []Out{{s.State, true, constBytes(fault)}}, false
+		}
+		return set(dv)
 	case ipfx + "neogointernal.Opcode1NoReturn":
 		op, _ := isConstBytes(args[0].(BytesV))
 		if op != "REVERSEITEMS" {
@@ -902,7 +910,11 @@ func (e *Engine) storageFind(s *St, prefix []*T, flags int) []findAlt {
 				}
 				val := en.val
 				if flags&deserialize != 0 {
-					val = e.thaw(s.State, val.(SerV).v)
+					dv, fault := e.deserialize(s.State, val)
+					if fault != "" { // neo-go: the iterator's Value() panics on an item it cannot decode
+						panic(vmFault{fault})
+					}
+					val = dv
 				}
 				switch {
 				case flags&keysOnly != 0:
@@ -921,6 +933,31 @@ func (e *Engine) storageFind(s *St, prefix []*T, flags int) []findAlt {
 
 // freeze deep-copies a value into an immutable tree (lists become FrozenList); thaw re-allocates it.
 type FrozenList struct{ e []Value }
+
+// deserialize models std.Deserialize / the DeserializeValues find option. A value serialized in this run is
+// unboxed. Concrete bytes that were never serialized here go through neo-go's real codec (fault when it
+// rejects them, as on the VM). Symbolic bytes that are not a serialization box are taken as undecodable: an
+// approximation that cannot raise a false alarm, because every counterexample is replayed on the real VM.
+func (e *Engine) deserialize(s *State, v Value) (Value, string) {
+	switch x := v.(type) {
+	case SerV:
+		return e.thaw(s, x.v), ""
+	case BytesV:
+		if c, ok := isConstBytes(x); ok {
+			it, err := stackitem.Deserialize([]byte(c))
+			if err != nil {
+				return nil, "deserialization failed: " + err.Error()
+			}
+			var out Value
+			if msg := guard(func() { out = fromItem(it) }); msg != "" {
+				return nil, "deserialization failed: " + msg
+			}
+			return out, ""
+		}
+		return nil, "deserialization of bytes that are not a serialized item"
+	}
+	return nil, "deserialization of a value that is not a byte string"
+}
 
 func (e *Engine) freeze(s *State, v Value) Value {
 	switch x := v.(type) {
